@@ -87,7 +87,7 @@ struct H {
     calls: Vec<Call>,
     order: String,
     max_readers: usize,
-    cur_op: [Option<Op>; ilv::MAX_THREADS],
+    cur_op: Vec<Option<Op>>,
 }
 
 thread_local! {
@@ -156,7 +156,13 @@ impl Model for LockModel {
         });
         for &op in &self.prog[tid] {
             let start = ilv::current_step();
-            HS.with(|h| h.borrow_mut().cur_op[tid] = Some(op));
+            HS.with(|h| {
+                let mut h = h.borrow_mut();
+                if h.cur_op.len() <= tid {
+                    h.cur_op.resize(tid + 1, None);
+                }
+                h.cur_op[tid] = Some(op);
+            });
             ilv::begin_call(op.is_try());
             ilv::note(|| format!("call {}", op.name()));
             macro_rules! body {
@@ -197,7 +203,7 @@ impl Model for LockModel {
         }
     }
     fn panic_kind(&self, tid: usize) -> String {
-        let op = HS.with(|h| h.try_borrow().ok().and_then(|h| h.cur_op[tid]));
+        let op = HS.with(|h| h.try_borrow().ok().and_then(|h| h.cur_op.get(tid).copied().flatten()));
         let n = match op {
             Some(Op::L) => "lock",
             Some(Op::T) => "try_lock",
@@ -280,6 +286,33 @@ struct Class {
     budget: Budget,
 }
 
+/// Many-thread programs (binary h-sync-wide): wake counts and batch sizes that only matter with dozens of
+/// parked threads.  One writer/locker plus k waiters, all schedules with at most one preemption.
+#[cfg(feature = "wide")]
+fn classes(id: &str, thorough: bool) -> Vec<Class> {
+    let b = |p, d, w| Budget { p, d, w };
+    let mut v = Vec::new();
+    let ks: &[usize] = if thorough { &[33, 65, 70, 79] } else { &[65, 70] };
+    for &k in ks {
+        let k = k.min(ilv::MAX_THREADS - 1);
+        if id == "C01" {
+            let mut p = vec![vec![Op::L]; k + 1];
+            p[k] = vec![Op::T];
+            v.push(Class { desc: format!("{} lockers + 1 try_lock", k), progs: vec![p], budget: b(1, 0, 0) });
+        } else {
+            let mut p = vec![vec![Op::W]];
+            p.extend(std::iter::repeat(vec![Op::R]).take(k));
+            v.push(Class { desc: format!("1 writer + {k} readers"), progs: vec![p], budget: b(1, 0, 0) });
+            let mut p = vec![vec![Op::R]];
+            p.extend(std::iter::repeat(vec![Op::W]).take(k / 2));
+            p.extend(std::iter::repeat(vec![Op::R]).take(k - k / 2 - 1));
+            v.push(Class { desc: format!("1 reader first, {} writers, {} readers", k / 2, k - k / 2 - 1), progs: vec![p], budget: b(1, 0, 0) });
+        }
+    }
+    v
+}
+
+#[cfg(not(feature = "wide"))]
 fn classes(id: &str, thorough: bool) -> Vec<Class> {
     let alpha: &[Op] = if id == "C01" { &[Op::L, Op::T] } else { &[Op::R, Op::W, Op::TR, Op::TW] };
     let w1 = words(alpha, 1);
